@@ -160,7 +160,7 @@ def rule_scalar_write(ctx, rep: Report, rid="K3", sizeof=SIZEOF_LP64, tag="LP64"
                     f"(element size {es}): out-of-bounds write / truncated value", hloc(asg))
     # every other raw store in the header (create_object ...)
     for name in ("create_object",):
-        for f in h.functions(name):
+        for f in h.functions_inlined(name):
             for asg, cast, arr in _raw_stores(f):
                 n += 1
                 pt = _pointee(cast)
@@ -282,11 +282,18 @@ def rule_guard_before_data(ctx, rep: Report, rid="K4"):
 def _for_nest(f):
     """Outermost ForStmt chain of f: list of (var, bound expr, increment exprs, body)."""
     chain = []
-    cur = next((st for st in statements(f) if st.get("kind") == "ForStmt"), None)
-    while cur is not None and cur.get("kind") == "ForStmt":
+    cur = next((st for st in statements(f) if st.get("kind") in ("ForStmt", "WhileStmt")), None)
+    while cur is not None and cur.get("kind") in ("ForStmt", "WhileStmt"):
         inner = cur["inner"]
-        init, cond, inc, body = inner[0], inner[2], inner[3], inner[4]
-        var = None
+        if cur.get("kind") == "WhileStmt":
+            # `while (i < bound) { ...; i++; }` read like the for loop it replaces
+            cond = next((x for x in inner if isinstance(x, dict) and strip(x).get("kind") == "BinaryOperator"), inner[0])
+            body = inner[-1]
+            init, inc = {}, body
+            var = ref_name(strip(cond)["inner"][0]) if strip(cond).get("inner") else None
+        else:
+            init, cond, inc, body = inner[0], inner[2], inner[3], inner[4]
+            var = None
         for v in walk(init):
             if v.get("kind") == "VarDecl":
                 var = v["name"]
@@ -431,6 +438,10 @@ def rule_error_terminal(ctx, rep: Report, rid="K6"):
             form_isscalar = top.get("kind") == "UnaryOperator" and top.get("opcode") == "!" and \
                 callee(strip(top["inner"][0])) == "mxIsScalar"
             ok = (form_mn or form_numel or form_isscalar) and raises
+            if not ok:
+                # any other way of writing the same decision (a named predicate, `!(m == 1 && n == 1)`, ...) is judged by its truth table
+                from .rules_header2 import guard_exact
+                ok = guard_exact(f, {("eq", "mxGetM", 1): True, ("eq", "mxGetN", 1): True}) is True
             detail = (f"condition {sorted(srcs)} ({top.get('opcode')}) is none of `M != 1 || N != 1`, `numel != 1`, "
                       f"`!mxIsScalar`; raises={raises}: some non-1x1 array (e.g. an empty one) passes as a scalar")
     rep.add(rid, "checkScalar:rejects anything but 1x1", ok, detail or "no if-statement found", hloc(f))
@@ -444,6 +455,9 @@ def rule_error_terminal(ctx, rep: Report, rid="K6"):
                 if cond.get("kind") == "BinaryOperator" and cond.get("opcode") == "!=":
                     names = {ref_name(cond["inner"][0]), ref_name(cond["inner"][1])}
                     ok = names == {"nargin", "expected"} and any(callee(c) in ERROR_FAMILY for b in st["inner"][1:] for c in calls(b))
+        if not ok:
+            from .rules_header2 import guard_exact
+            ok = guard_exact(f, {("eq", "nargin", "expected"): True}) is True
         rep.add(rid, "checkArguments:argument count mismatch is an error", ok,
                 "checkArguments must raise when nargin != expected", hloc(f))
 
@@ -451,7 +465,7 @@ def rule_error_terminal(ctx, rep: Report, rid="K6"):
 def rule_handle_protocol(ctx, rep: Report, rid="K7"):
     h = header(ctx)
     # writer
-    co = h.functions("create_object")
+    co = h.functions_inlined("create_object")
     ws = h.functions("wrap_shared_ptr")
     if not co or not ws:
         raise AnalysisError("create_object / wrap_shared_ptr not found")
